@@ -63,6 +63,7 @@ def expand_consts(d, depth=3):
     return d
 
 
+COMMUTATIVE = ('Add', 'Mul', 'Eq', 'Ne', 'AddWithOverflow', 'MulWithOverflow', 'AddUnchecked', 'MulUnchecked', 'BitAnd', 'BitOr', 'BitXor')
 SCALAR_TYS = ('f32', 'f64', 'bool', 'usize', 'isize', 'u8', 'u16', 'u32', 'u64', 'u128', 'i8', 'i16', 'i32', 'i64', 'i128', 'char')
 
 
@@ -149,7 +150,17 @@ def describe_rv(body, rv, depth=6, at=None):
     if k == 'cast':
         return describe(body, rv['op'], depth - 1, at=at)
     if k == 'bin':
-        return '%s(%s, %s)' % (rv['op'], describe(body, rv['a'], depth - 1, at=at), describe(body, rv['b'], depth - 1, at=at))
+        # canonical form: the operands of a commutative operator are sorted, `a > b` reads `b < a`, `a >= b` reads `b <= a`
+        # (so that `x + 1` and `1 + x`, `t >= d` and `d <= t` are one description)
+        op = rv['op']
+        a = describe(body, rv['a'], depth - 1, at=at)
+        b = describe(body, rv['b'], depth - 1, at=at)
+        if op in COMMUTATIVE:
+            a, b = sorted((a, b))
+        elif op in ('Gt', 'Ge'):
+            op = {'Gt': 'Lt', 'Ge': 'Le'}[op]
+            a, b = b, a
+        return '%s(%s, %s)' % (op, a, b)
     if k == 'un':
         return '%s(%s)' % (rv['op'], describe(body, rv['a'], depth - 1, at=at))
     if k == 'discr':
